@@ -297,6 +297,31 @@ def layout_job(job):
                 return res == want
             out.append(prove(job["id"] + "-constseq", "const in order", f"{text}: layout.const({{{', '.join(map(repr, keys))}}}) == fields assigned in that order on zero",
                              fv, [], run_seq, post_seq, shims=sh))
+    # O3c an initialiser that is an hdl.Const of ANOTHER width or signedness is converted like an assignment to the field would:
+    # the field takes the constant's integer value wrapped into the field's shape, no other bit changes
+    for key, off, sub in kids[:2]:
+        fw, fs = sub[1], sub[0] == "s"
+        for (cw, cs) in ((fw + 1, False), (fw + 2, True), (max(1, fw - 1), True)):
+            cv = fresh(f"cinit_{cw}{'s' if cs else 'u'}", cw, cs)
+            bg = [(k2, o2, s2) for k2, o2, s2 in kids if str(k2) != str(key)][:1] if spec[0] in ("struct", "array") else []      # (a union takes one initialiser)
+
+            def run_hc(cv, key=key, cw=cw, cs=cs, bg=bg):
+                fields = {k2: 0 for k2, o2, s2 in bg}
+                fields[key] = HConst(cv, Shape(cw, cs))
+                if spec[0] == "array":
+                    base_ = [0] * spec[2]
+                    base_[key] = fields[key]
+                    fields = base_
+                return layout.const(fields).as_bits()
+
+            def post_hc(i, res, exc, off=off, fw=fw):
+                if exc is not None:
+                    return False
+                return res == (refsem.to_unsigned(i["cv"], fw) << off)
+            if spec[0] != "flex" or not bg:
+                out.append(prove(job["id"] + f"-constconst-{key}-{cw}{'s' if cs else 'u'}", "const from hdl.Const",
+                                 f"{text}: layout.const({{{key!r}: Const(v, {'signed' if cs else 'unsigned'}({cw}))}}) sets exactly that field to v wrapped into its shape",
+                                 {"cv": cv}, [], run_hc, post_hc, shims=sh))
     # O2' slices of a constant with an array layout follow Python's slice semantics (also descending strides)
     if spec[0] == "array" and spec[2] >= 2 and size_of(spec[1]) > 0:
         n_, ew_ = spec[2], size_of(spec[1])
@@ -587,9 +612,11 @@ def enum_job(job):
     out.append(dict(r, status=VIOLATION, detail="; ".join(bad[:3]), signature={"kind": "tb-roundtrip"}, replay={"enum": True}) if bad else dict(r, status=PROVED))
     # FlagView operators vs Python's enum.Flag, all operand values symbolic
     for w, gaps, boundary in ((2, False, None), (3, False, None), (3, True, None), (3, True, py_enum.EJECT), (3, True, py_enum.KEEP), (3, True, py_enum.CONFORM),
-                              (4, True, py_enum.EJECT), (3, False, py_enum.KEEP)):
+                              (4, True, py_enum.EJECT), (3, False, py_enum.KEEP), (4, "multi", None), (3, "multi", py_enum.CONFORM), (3, "multi", py_enum.EJECT), (3, "multi", py_enum.KEEP)):
         names = {f"F{k}": 1 << k for k in range(min(w, 3)) if not (gaps and k == 1)}
-        if gaps:
+        if gaps == "multi":
+            names = {"R": 0b001, "WX": 0b110}        # a multi-bit member whose bits are no members of their own
+        elif gaps:
             names["COMBO"] = 0b101
         bkw = {} if boundary is None else {"boundary": boundary}
         Fl = make_enum(f"Fx{w}{gaps}", names, w, aenum.Flag, **bkw)
@@ -644,7 +671,10 @@ def enum_job(job):
                 conds.append(bool_term(ne))
             for x2 in valid:               # the integer reference for | & ^ is what enum.Flag computes
                 for op_ in ("__or__", "__and__", "__xor__"):
-                    pr = getattr(PyFl(x), op_)(PyFl(x2))
+                    try:
+                        pr = getattr(PyFl(x), op_)(PyFl(x2))
+                    except ValueError:
+                        continue            # enum.Flag itself rejects the result (bits of a multi-bit member on their own under STRICT)
                     assert int(getattr(pr, "value", pr)) == getattr(x, op_)(x2)
         r = dict(base, id=f"flag-ops-w{w}{'-gaps' if gaps else ''}{'' if boundary is None else '-' + boundary.name}", kind="FlagView operators", nontrivial=True,
                  program=f"Flag with members {names}, shape {w}, boundary {boundary}", symbolic="both operands",
@@ -743,7 +773,7 @@ def main(tier, seed):
                      "amaranth.lib.data.View.__getitem__ / eq", "amaranth.lib.enum.EnumType.const / from_bits", "amaranth.lib.enum.FlagView.{__or__,__and__,__xor__,__invert__}",
                      "amaranth.hdl._ast.Const.__init__ (field normalisation)", "amaranth.sim._pyrtl compiled code of view reads and field assignments"]
     rep.bounds = {"layouts": len(jobs) - 1, "depth": "<= 3", "fields": "<= 4 per level", "field_width": "0..4, signed, enum fields", "total_size": "<= 12 (14) bits",
-                  "outside": "layouts deeper than 3 levels or wider than the stated bound; KEEP flags whose shape is wider than the highest flag; the in-synthesis clause runs through C04's translation validation for a share of the designs"}
+                  "outside": "layouts deeper than 3 levels or wider than the stated bound; EJECT / KEEP flags whose shape is wider than the bit length of the flags (Python complements within the flags' bit length, hardware within the shape); the in-synthesis clause runs through C04's translation validation for a share of the designs"}
     rep.stubs = ["amaranth.lib.data.operator/range, amaranth.hdl._ast.operator/int, amaranth.utils.operator (identity / arithmetic models on proxies)", "HSignalState", "if-converting interpreter"]
     rep.assumptions = []
     rep.rule = "hand-written corner layouts plus seeded random layout trees; obligations per layout: placement, from_bits/as_bits/Const[] for all raw patterns, const(fields), view reads, view field assignment"
